@@ -309,7 +309,7 @@ def write_evidence(prop, doc):
 
 
 # ----------------------------------------------------------------------------- main entry
-def run_check(eng, prop, tier, seed, workers=None, budget_s=None, max_tasks=None, verbose=True):
+def run_check(eng, prop, tier, seed, workers=None, budget_s=None, max_tasks=None, verbose=True, stride=None):
     """returns the process exit code"""
     global _ENGINE
     _ENGINE = eng
@@ -321,6 +321,8 @@ def run_check(eng, prop, tier, seed, workers=None, budget_s=None, max_tasks=None
     tasks = eng.tasks(prop, tier, seed)
     if max_tasks:
         tasks = tasks[:max_tasks]
+    if stride and stride > 1:
+        tasks = tasks[::stride]
     for i, t in enumerate(tasks):
         t["n"] = i
     keep = {0, len(tasks) // 2, len(tasks) - 1}
